@@ -338,7 +338,7 @@ def periodogram_csd(s, Fs=2 * np.pi, Sk=None, NFFT=None, sides='default',
         # last duplicate freq
         Fl = (N + 1) // 2
         csd_pairs = np.zeros((M, M, Fn), 'D')
-        freqs = np.linspace(0, Fs / 2, Fn)
+        freqs = np.fft.rfftfreq(N) * Fs
         for i in range(M):
             for j in range(i + 1):
                 csd_pairs[i, j, 0] = Sk_loc[i, 0] * Sk_loc[j, 0].conj()
